@@ -531,7 +531,12 @@ func (j *jsonReader) DateTime(tag int) (time.Time, error) {
 			if epoch < 0 {
 				return time.Time{}, Errorf("date-time cannot be negative")
 			}
-			return time.Unix(epoch, 0).UTC(), j.Next()
+			t := time.Unix(epoch, 0).UTC()
+			if t.Year() > 9999 {
+				// Such a date cannot be written back in the RFC 3339 form used by the text encodings
+				return time.Time{}, Errorf("date-time is out of range")
+			}
+			return t, j.Next()
 		}
 		t, err := time.Parse(time.RFC3339, val)
 		if err != nil {
